@@ -4,6 +4,7 @@
 -/
 import AITB.Model.Cassandra
 namespace AITB.Cassandra
+variable {fl : Flags}
 
 /-! ### Except -/
 
